@@ -106,4 +106,36 @@ theorem multiline_tokens (l0 : Str) (ls : List Str)
   rw [multiline_lines, splitLines_unlines X hXnl, hfilter, hmapstrip, hts]
   simp [mapM', splitOneLine, bind, Except.bind]
 
+/-! ## rows that mix multi-line values with ordinary tokens -/
+
+theorem toSingle_block_rest (acc ls rest : List Str) (h : ∀ l ∈ ls, l.head? ≠ some ';') :
+    toSingle (some acc) (ls ++ [';'] :: rest) = joinNl (acc ++ ls) :: toSingle none rest := by
+  induction ls generalizing acc with
+  | nil => simp [toSingle]
+  | cons l ls ih =>
+    have hl : (l.head? == some ';') = false := by simpa using h l (by simp)
+    have := ih (acc ++ [l]) (fun x hx => h x (by simp [hx]))
+    simp only [List.cons_append, toSingle, hl, Bool.false_eq_true, if_false, this]
+    simp
+
+/-- One stretch of a written row as the category reader sees it after dropping empty lines and
+stripping: either one line of ordinary tokens (values `vals` written with `_escape` and padding),
+or the `;`-delimited lines of one multi-line value `l0, l1, …`. -/
+inductive Seg where
+  | toks (vals : List Str) (pads : List Nat)
+  | ml (l0 : Str) (ls : List Str)
+
+def Seg.lines : Seg → List Str
+  | .toks vals pads => [padded ((vals.map escape).zip pads)]
+  | .ml l0 ls => (';' :: l0) :: ls ++ [[';']]
+
+def Seg.vals : Seg → List Str
+  | .toks vals _ => vals
+  | .ml l0 ls => [joinNl (l0 :: ls)]
+
+/-- hypotheses on one stretch -/
+def Seg.Ok : Seg → Prop
+  | .toks vals pads => vals ≠ [] ∧ pads.length = vals.length ∧ ∀ v ∈ vals, SingleLine v ∧ ¬ BothQuotes v
+  | .ml _ ls => ∀ l ∈ ls, KeptLine l
+
 end BiotiteModel.C06
